@@ -669,6 +669,14 @@ def run_threads(acc, tier):
              "TH3/T23-three-sessions"] + \
             ([] if tier == "quick" else ["TH/T509+T23", "TH/E37", "TH3/T23-S", "TH/T509-redraw", "TH/T23-same-params@opcode", "TH/T23+T23'@opcode",
                                          "TH/T23-redraw@opcode"])
+    ok_names = []
+    for n in names:
+        try:
+            thread_bodies(n)
+            ok_names.append(n)
+        except Exception as e:
+            acc.degrade("thread harness %s unavailable: %s: %s" % (n, type(e).__name__, e))
+    names = ok_names
     b1 = lambda n: 1 if (n == "TH/E37" or n.startswith("TH3/") or _opc(n)) else bound
     roots = core.pmap(_thread_root_task, [(n, b1(n)) for n in names])
     jobs = []
@@ -752,3 +760,6 @@ def replay(rec):
         return sorted(a.viol)
     run_ = sched.Run(thread_bodies(r["harness"]), r["choices"], T.PKG, _opc(r["harness"]))
     return run_.run()
+
+
+_thread_root_task.returns_tuple = True
